@@ -208,6 +208,8 @@ type FlowSpec struct {
 	Gap func(i int) time.Duration
 	// RecvGap is slept before the i-th Recv (nil = none): a slow consumer.
 	RecvGap func(i int) time.Duration
+	// OnAccepted, if set, is called right after the i-th Send returned nil.
+	OnAccepted func(i int)
 }
 
 // RecvRec is one message returned by Recv.
@@ -285,6 +287,9 @@ func RunFlow(from, to *gbn.GoBackNConn, spec FlowSpec, t0 time.Time) (*FlowResul
 			res.Accepted++
 			res.SendTimes = append(res.SendTimes, time.Since(t0))
 			res.mu.Unlock()
+			if spec.OnAccepted != nil {
+				spec.OnAccepted(i)
+			}
 		}
 	}()
 	go func() {
